@@ -755,8 +755,22 @@ def _cf_some(eng, st, pos, kw):
     return [(st, v)]
 
 
+def _cf_replace(eng, st, pos, kw):
+    """replace(obj, field=value, ...): the record obj with some fields changed (for mutates clauses)."""
+    o = pos[0]
+    if not isinstance(o, ObjV):
+        raise Unsupported("replace() of non-record")
+    for k, v in kw.items():
+        if k not in o.fields:
+            raise Unsupported(f"replace(): no field {k}")
+        want = o.kind.fields[k] if isinstance(o.kind, KObj) else v.kind
+        o = o.with_field(k, unbox(box(v, want), want))
+    return [(st, o)]
+
+
 CONTRACT_FUNCS = {
     "some": FuncV(_cf_some, "some"),
+    "replace": FuncV(_cf_replace, "replace"),
     "Writer_append": FuncV(_cf_writer_append, "Writer_append"),
     "translate_table": FuncV(_cf_translate, "translate_table"),
     "keys": FuncV(_cf_keys, "keys"),
@@ -770,6 +784,19 @@ CONTRACT_FUNCS = {
     "ite": FuncV(_cf_ite, "ite"),
     "matches": FuncV(_cf_in_re, "matches"),
 }
+
+
+def _own_yields(fn) -> bool:
+    """Does the function itself (not a nested def/lambda) contain yield?"""
+    stack = list(fn.body)
+    while stack:
+        n = stack.pop()
+        if isinstance(n, (ast.Yield, ast.YieldFrom)):
+            return True
+        if isinstance(n, (ast.FunctionDef, ast.AsyncFunctionDef, ast.Lambda, ast.ClassDef)):
+            continue
+        stack.extend(ast.iter_child_nodes(n))
+    return False
 
 
 # ------------------------------------------------------------------ verifier
@@ -900,7 +927,7 @@ class Verifier(Engine):
         ob.inputs = inputs
         for u in c.uses:
             st = st.assume(self.lemma_axiom(u))
-        if any(isinstance(n, (ast.Yield, ast.YieldFrom)) for n in ast.walk(fn)):
+        if _own_yields(fn):
             st.ghost["yield"] = []
         first = len(self.obligations)
         outs = self.exec_block(fn.body, st)
@@ -911,7 +938,9 @@ class Verifier(Engine):
                 n_normal += 1
                 val = oc.value if oc.kind == "return" else NONE
                 if "yield" in oc.state.ghost:
-                    val = bm.GenV(oc.state.ghost["yield"])
+                    from .dom_model import gen_value
+
+                    val = gen_value(oc.state.ghost["yield"])
                 self._check_exit(c, oc.state, val, env, genv, ex)
             elif oc.kind == "raise":
                 self._check_raise(c, oc.state, oc.value, env, genv, ex)
@@ -927,7 +956,7 @@ class Verifier(Engine):
             self.oblige("post", "result-kind", st, z3.BoolVal(False), ex.lineno,
                         info={"why": f"result kind {val.kind!r} does not fit declared {c.ret!r}"})
             return
-        res = unbox(box(val, c.ret), c.ret) if c.ret is not None and not isinstance(val, bm.GenV) else val
+        res = unbox(box(val, c.ret), c.ret) if c.ret is not None else val
         e2 = {**env, **genv, "result": res}
         # contract speaks about entry values of parameters; current values available via names
         cur = dict(st.vars)
